@@ -66,6 +66,16 @@ def cases(seed, tier):
             p['pad_extra'] = rng.randrange(0, 31)
             p['pad_byte'] = rng.choice([0, 0xff, 0x41, rng.randrange(256)])
         c = {'kind': 'ssh2', 'profile': p, 'net': gen.rand_net(rng), 'knobs': gen.rand_knobs(rng), 'pseed': rng.getrandbits(32)}
+        r5 = gen.case_rng(seed, ID, i, 'pad_all')
+        if r5.random() < 0.3:
+            # every packet of the server (key-exchange replies, group messages, DEBUG packets), not only its KEXINIT, carries a seeded legal
+            # padding length of up to 255 bytes and a seeded pad byte
+            p['pad_all'] = True
+            p['pad_extra'] = r5.choice([r5.randrange(0, 31), r5.randrange(14, 31), 30])
+            p['pad_byte'] = r5.choice([0, 0xff, r5.randrange(256)])
+            p.setdefault('gex', {'sizes': [r5.choice([1024, 2048, 3072, 4096])], 'style': 'roundup'})
+            if r5.random() < 0.6 and not any(k.startswith('diffie-hellman-group-exchange') for k in p['kex']):
+                p['kex'] = list(p['kex']) + ['diffie-hellman-group-exchange-sha256']
         r4 = gen.case_rng(seed, ID, i, 'directions')
         if r4.random() < 0.25:
             # a KEXINIT whose two directions differ: what the tool echoes in its probe KEXINITs is what it decoded as the
@@ -137,6 +147,18 @@ def run_case(case, ctx):
             diff = [(x, y) for x, y in zip(a, b) if x != y][:2]
             out.append(viol('C10 well-framed packets are not accepted alike under segmentation (report differs from the unsegmented run)',
                             'net=%r\nfirst differing lines (unsegmented, segmented): %r' % (case['net'], diff)))
+    if p.get('pad_all') and not case.get('faults'):
+        # padding is presentation: the same peer framing its packets with minimal padding must get the same report
+        plan_min = copy.deepcopy(plan)
+        pm = plan_min['world']['servers'][0]['profile']
+        for kk in ('pad_all', 'pad_extra', 'pad_byte'):
+            pm.pop(kk, None)
+        r3 = ctx.run(plan_min)
+        if not r3.get('harness_error') and (r3['stdout'] != rec['stdout'] or r3['status'] != rec['status']):
+            a, b = r3['stdout'].split('\n'), rec['stdout'].split('\n')
+            diff = [(x, y) for x, y in zip(a, b) if x != y][:2] or [('lines: %d' % len(a), 'lines: %d' % len(b))]
+            out.append(viol('C10 well-framed packets with long padding are not read back as sent (report differs from the one for minimal padding)',
+                            'pad_extra=%r pad_byte=%r\nfirst differing lines (minimal, long padding): %r' % (p.get('pad_extra'), p.get('pad_byte'), diff)))
     if case.get('debug_before'):
         # several well-framed packets delivered back to back: each must be read as it was sent, so the packets after the
         # DEBUG ones are still the replies, and the report equals the one of the peer that sends no DEBUG packets
